@@ -8,6 +8,7 @@ import (
 	"bytes"
 	"context"
 	"fmt"
+	"github.com/psanford/sqlite3vfs"
 	"io"
 	"log/slog"
 	"os"
@@ -107,8 +108,26 @@ func genC18(t *rapid.T) c18Case {
 			} else {
 				ops = append(ops, lsw.Op{K: "vfs-poll"})
 			}
-		case r < 96:
+		case r < 94:
 			ops = append(ops, lsw.Op{K: "vfs-time", N: rapid.IntRange(0, 1000).Draw(t, "instant")})
+			// the poller may run while the historical view is installed; the view must not move
+			if rapid.Bool().Draw(t, "pollInTimeTravel") {
+				ops = append(ops, lsw.Op{K: "vfs-poll"})
+			}
+		case r < 97:
+			// a reader holds the SHARED lock (its pages are cached by the comparison reads) while the primary moves on and
+			// the poller runs; after it unlocks, the pages it reads are those of the new position
+			ops = append(ops, lsw.Op{K: "vfs-lock"})
+			for k := rapid.IntRange(1, 3).Draw(t, "lockedSteps"); k > 0; k-- {
+				a := rapid.IntRange(0, 90).Draw(t, "a")
+				if rapid.IntRange(0, 2).Draw(t, "lockedKind") == 0 {
+					ops = append(ops, lsw.Op{K: "insert", T: 0, N: rapid.SampledFrom([]int{1, 5, 12}).Draw(t, "n"), S: 1})
+				} else {
+					ops = append(ops, lsw.Op{K: "update", T: 0, A: a, B: rapid.IntRange(a, 100).Draw(t, "b")})
+				}
+				ops = append(ops, lsw.Op{K: "sleep", N: 2}, lsw.Op{K: "syncwait"}, lsw.Op{K: "vfs-poll"})
+			}
+			ops = append(ops, lsw.Op{K: "vfs-unlock"})
 		default:
 			ops = append(ops, lsw.Op{K: "vfs-reset"})
 		}
@@ -180,20 +199,37 @@ func execC18(c c18Case) (res core.Result) {
 		res.NonTrivial = shrinkSeen || polledAfterCompaction
 	}()
 	// compare checks the VFS view against an ordinary restore
+	var ttImage []byte // the timestamp restore the current time-travel view was compared with when it was installed
 	compare := func(i int, o lsw.Op, timeTravel *time.Time) *core.Violation {
 		pos := vf.Pos().TXID
 		ref := filepath.Join(w.Dir, "c18-ref.db")
 		defer os.Remove(ref)
 		var rerr error
-		if timeTravel != nil {
-			rerr = lsw.RestoreTo(ctx, w.ReplicaDir, ref, 0, *timeTravel)
+		var R []byte
+		if timeTravel != nil && o.K == "vfs-poll" {
+			// a poll while the historical view is installed: the view must still be what it was when it was installed
+			// (a fresh timestamp restore may legitimately differ by now: compaction and retention rewrite the files)
+			if ttImage == nil {
+				return nil
+			}
+			R = ttImage
 		} else {
-			rerr = lsw.RestoreTo(ctx, w.ReplicaDir, ref, pos, lsw.ZeroTime)
+			if timeTravel != nil {
+				rerr = lsw.RestoreTo(ctx, w.ReplicaDir, ref, 0, *timeTravel)
+			} else {
+				rerr = lsw.RestoreTo(ctx, w.ReplicaDir, ref, pos, lsw.ZeroTime)
+			}
+			if rerr != nil {
+				if timeTravel != nil {
+					ttImage = nil
+				}
+				return nil // the position is not addressable by an ordinary restore right now: nothing to compare with
+			}
+			R, _ = os.ReadFile(ref)
+			if timeTravel != nil {
+				ttImage = R
+			}
 		}
-		if rerr != nil {
-			return nil // the position is not addressable by an ordinary restore right now: nothing to compare with
-		}
-		R, _ := os.ReadFile(ref)
 		res.Evals++
 		partial := pollAteShrink
 		mk := func(oracle, format string, a ...any) *core.Violation {
@@ -235,7 +271,13 @@ func execC18(c c18Case) (res core.Result) {
 		return nil
 	}
 	var tsAtStep []time.Time
+	locked, polledLocked := false, false
+	var curT *time.Time
 	for i, o := range c.Ops {
+		if os.Getenv("VERIF_TRACE") != "" && vf != nil {
+			sz, _ := vf.FileSize()
+			fmt.Printf("TRACE before step %d %-12s vfs pos=%d size=%d pages locked=%v | %s\n", i, o.K, vf.Pos().TXID, sz/int64(c.Cfg.PageSize), locked, w.TraceState())
+		}
 		switch o.K {
 		case "sleep":
 			time.Sleep(time.Duration(o.N) * time.Millisecond)
@@ -258,8 +300,57 @@ func execC18(c c18Case) (res core.Result) {
 				res.Violation = v
 				return res
 			}
+		case "vfs-lock":
+			if vf == nil || locked || vf.TargetTime() != nil {
+				continue
+			}
+			if err := vf.Lock(sqlite3vfs.LockShared); err != nil {
+				continue
+			}
+			locked = true
+			res.Labels = append(res.Labels, "reader-lock")
+		case "vfs-unlock":
+			if vf == nil || !locked {
+				continue
+			}
+			locked = false
+			if err := vf.Unlock(sqlite3vfs.LockNone); err != nil {
+				res.Violation = &core.Violation{Oracle: "unlock-error", Msg: fmt.Sprintf("step %d: Unlock: %v", i, err)}
+				return res
+			}
+			if polledLocked {
+				res.Labels = append(res.Labels, "poll-under-reader-lock")
+			}
+			polledLocked = false
+			if v := compare(i, o, nil); v != nil {
+				res.Violation = v
+				return res
+			}
 		case "vfs-poll":
-			if vf == nil || vf.TargetTime() != nil {
+			if vf == nil {
+				continue
+			}
+			if vf.TargetTime() != nil {
+				// a poll while a historical view is installed must leave the view alone
+				if curT == nil {
+					continue
+				}
+				_ = vf.VerifPoll(ctx)
+				res.Labels = append(res.Labels, "poll-during-time-travel")
+				if v := compare(i, o, curT); v != nil {
+					res.Violation = v
+					return res
+				}
+				continue
+			}
+			if locked {
+				// updates are parked until the reader unlocks; its view is compared after the unlock
+				_ = vf.VerifPoll(ctx)
+				polledLocked = true
+				if shrinkNotFullRewrite(w, 0, vf.Pos().TXID) {
+					shrinkSeen = true
+					pollAteShrink = true
+				}
 				continue
 			}
 			before := vf.Pos().TXID
@@ -290,7 +381,7 @@ func execC18(c c18Case) (res core.Result) {
 				return res
 			}
 		case "vfs-time":
-			if vf == nil || len(tsAtStep) == 0 {
+			if vf == nil || len(tsAtStep) == 0 || locked {
 				continue
 			}
 			T := tsAtStep[o.N%len(tsAtStep)].Add(time.Millisecond)
@@ -299,18 +390,21 @@ func execC18(c c18Case) (res core.Result) {
 				continue
 			}
 			res.Labels = append(res.Labels, "time-travel")
+			tt := T
+			curT = &tt
 			pollAteShrink = false
 			if v := compare(i, o, &T); v != nil {
 				res.Violation = v
 				return res
 			}
 		case "vfs-reset":
-			if vf == nil {
+			if vf == nil || locked {
 				continue
 			}
 			if err := vf.ResetTime(ctx); err != nil {
 				continue
 			}
+			curT = nil
 			pollAteShrink = false
 			if v := compare(i, o, nil); v != nil {
 				res.Violation = v
